@@ -407,6 +407,14 @@ func runServerScenario(t *testing.T, sc *srvScenario, pickFn func(n int) int, sk
 			}
 		}
 		r.sch.midSend = r.sendPark
+		r.sch.midClose = func() {
+			if srv := r.srv; srv != nil {
+				if mu := mutexOf(srv); mu != nil && mu.TryLock() {
+					mu.Unlock()
+					r.sched.hook("chan.close.mid", "", nil)
+				}
+			}
+		}
 		sopts := &jrpc2.ServerOptions{Concurrency: sc.Concurrency, AllowPush: sc.AllowPush, Logger: r.logPark}
 		if sc.DeadCtxAt > 0 {
 			nctx := 0
